@@ -212,8 +212,8 @@ Qed.
 (* what the generic handlers push: no item to run, no call to drop, no notifier *)
 Definition genm (m : mop) : Prop :=
   match m with
-  | MRunItem _ | MToReady _ | MLogClose _ _ | MEndBody _ _ => False
-  | MDropItem c | MDropInner c => ci_call c = false
+  | MRunItem _ | MToReady _ | MLogClose _ _ | MEndBody _ _ | MDropInner _ => False
+  | MDropItem c => ci_call c = false
   | MRetInvoke r m0 => user_ret r /\ match m0 with Some (MCause _) => False | _ => True end
   | _ => True
   end.
